@@ -373,6 +373,7 @@ type LoopSpec struct {
 }
 
 type ModItem struct {
+	Star  bool   // "x.*": any field of the object x denotes (whatever its dynamic type)
 	Whole bool   // whole field of a type: "T.f" / "ghost name"
 	Key   string // modset key when Whole
 	E     SExpr  // location expression otherwise (x.f, x[i], elems(x))
@@ -445,7 +446,7 @@ func newContractDB() *ContractDB {
 }
 
 var (
-	reLabel = regexp.MustCompile(`^\[([A-Za-z0-9_\-./#<>=!+]+)\]\s*(.*)$`)
+	reLabel = regexp.MustCompile(`^\[([A-Za-z0-9_\-./#<>=!+:]+)\]\s*(.*)$`)
 	reFunc  = regexp.MustCompile(`^(func|interface|extern)\s+(\S+)(?:\s+params\s*\(([^)]*)\))?(?:\s+returns\s*\(([^)]*)\))?\s*(.*)$`)
 	rePred  = regexp.MustCompile(`^pred\s+(?:\((\w+)\s+([^)]+)\)\s+)?(\$?\w+)\s*\(([^)]*)\)\s*\{(.*)\}\s*$`)
 	reGhost = regexp.MustCompile(`^ghost\s+field\s+(\S+?)\.(\$\w+)\s+(.+)$`)
@@ -688,12 +689,17 @@ func (db *ContractDB) loadFile(path, pkgPrefix string) {
 					cur.Modifies = append(cur.Modifies, ModItem{Whole: true, Key: canonModKey(k, pkgPrefix), Src: item})
 					continue
 				}
+				star := false
+				if strings.HasSuffix(item, ".*") {
+					star = true
+					item = strings.TrimSuffix(item, ".*")
+				}
 				e, err := parseSpecExpr(item)
 				if err != nil {
 					fail(l.n, "%v", err)
 					continue
 				}
-				cur.Modifies = append(cur.Modifies, ModItem{E: e, Src: item})
+				cur.Modifies = append(cur.Modifies, ModItem{E: e, Src: item, Star: star})
 			}
 		case reLoop.MatchString(t):
 			if cur == nil {
